@@ -396,7 +396,18 @@ func buildFixture(dir, state string) (info *fxInfo, err error) {
 		g2 := b.unspents(gAddr)
 		t3 := fxSpend(g2, []cipher.SecKey{k.genSec}, []fxOut{{gAddr, g2[0].Body.Coins - 50*C, 1000}, {k.kAddr, 50 * C, 50}}, true)
 		b.inject(t3)
+		// two pending transactions that spend the same output of the known address: block 3 confirms one of them, the other one
+		// becomes invalid and is dropped by the periodic clean-up (RemoveInvalidUnconfirmed) — the node has a pool HISTORY, and
+		// every index kept next to the pool must have followed it
+		kx := b.unspents(k.kAddr)
+		cx1 := fxSpend(kx[:1], []cipher.SecKey{k.kSec}, []fxOut{{pA(2), 10 * C, 10}, {k.kAddr, kx[0].Body.Coins - 10*C, 10}}, true)
+		cx2 := fxSpend(kx[:1], []cipher.SecKey{k.kSec}, []fxOut{{k.kAddr, kx[0].Body.Coins, 20}}, true)
+		b.inject(cx1)
+		b.inject(cx2)
 		b.block()
+		if removed, err := n.v.RemoveInvalidUnconfirmed(); err != nil || len(removed) != 1 {
+			return nil, fmt.Errorf("fixture: RemoveInvalidUnconfirmed removed %v, err %v (want exactly the losing double spend)", removed, err)
+		}
 		// pending: plain wallet's second address spends
 		p1in := b.unspents(pA(1))
 		p1 := fxSpend(p1in, []cipher.SecKey{pe[1].Secret}, []fxOut{{k.kAddr, 100 * C, 100}, {pA(1), 500 * C, 100}}, true)
